@@ -116,11 +116,12 @@ class BufGen:
             if k == "copy":
                 return {"k": "copy", "src": s, "dst": d, "tag": self.tag}
             return {"k": "gen", "ins": [s], "out": d, "tag": self.tag}
+        extra = ["%sel0"] if p.get("select") else []
         if k == "copy":
-            s, d = r.sample(self.bufs(), 2)
+            s, d = r.sample(self.bufs() + extra, 2)
             return {"k": "copy", "src": s, "dst": d, "tag": self.tag}
         if k == "gen":
-            pool = self.bufs() if p["l3_kernels"] else self.bufs()[N_ARGS:]
+            pool = (self.bufs() if p["l3_kernels"] else self.bufs()[N_ARGS:]) + extra
             nin = 2 if p["gen2"] and r.random() < 0.5 else 1
             picks = r.sample(pool, nin + 1)
             return {"k": "gen", "ins": picks[:nin], "out": picks[nin], "tag": self.tag}
@@ -146,6 +147,8 @@ class BufGen:
 
     def program(self):
         ast = {"body": self.stmts(self.p["top_stmts"], 0, [], False), "views": bool(self.p.get("views")), "streams": bool(self.p.get("streams"))}
+        if self.p.get("select"):
+            ast["select"] = True  # %sel0 = one of two local buffers, decided at run time
         if self.p.get("n_allocs", N_ALLOCS) != N_ALLOCS:
             ast["n_allocs"] = self.p["n_allocs"]
         if self.p.get("late_allocs"):
@@ -255,6 +258,8 @@ def emit(ast) -> str:
     for i in range(ast.get("n_allocs", N_ALLOCS)):
         if f"%b{i}" not in late:
             e(2, f"%b{i} = memref.alloc() {{vsite = {i} : i64}} : {T1}")
+    if ast.get("select"):
+        e(2, f"%sel0 = arith.select %p1, %b0, %b1 : {T1}")
     if ast.get("streams"):
         for nm, ty in (("%e0", "i32"), ("%e1", "i32"), ("%f0", "i8"), ("%f1", "i8")):
             e(2, f'{nm} = memref.alloc() {{vsite = {20 + ord(nm[1]) + int(nm[2])} : i64}} : memref<8x{ty}, "L1">')
